@@ -66,7 +66,10 @@ def norm_state(state, exp_state):
     return "expected" if state.isdigit() and int(state) == exp_state else state
 
 
-def build_reply(step, state, err, subset, order, valid):
+def build_reply(step, state, err, subset, order, valid, stranger="none", where="front"):
+    if stranger != "none":
+        inner = build_reply(step, state, err, subset, order, valid)
+        return STRANGERS[stranger] + inner if where == "front" else inner[:1] + STRANGERS[stranger] + inner[1:]
     exp_state, others = STEPS[step]
     items = state_items(state, exp_state)
     if ERRORS[err] is not None:
@@ -79,8 +82,14 @@ def build_reply(step, state, err, subset, order, valid):
     return items
 
 
+# an item the step does not define, in front of everything else: RetryDelay (it accompanies a Backoff error in the specification), a vendor item,
+# a separator.  "whichever other fields the reply does or does not carry"
+STRANGERS = {"none": [], "retry-delay": [(0x08, b"\x1e")], "vendor": [(0xF0, b"\x01\x02")], "retry+vendor": [(0x08, b"\x1e\x00"), (0xF0, b"")], "separator": [(0xFF, b"")]}
+
+
 def run_cell(case, R):
     step, state, err, order, style = case["step"], case["state"], case["err"], case["order"], case["decode"]
+    stranger, where = case.get("stranger", "none"), case.get("where", "front")
     subset = set(case["subset"])
     k = case.get("k", 0)
     exp_state = STEPS[step][0]
@@ -90,7 +99,9 @@ def run_cell(case, R):
     control = not error_present and state in ("expected", "absent") and complete
     R.nt(error_present or state not in ("expected", "absent"))
     R.cls("step:" + step, "control" if control else ("error-cell" if error_present else ("wrong-state" if state not in ("expected", "absent") else "incomplete")))
-    what = f"{step} state={state} error={err} fields={sorted(subset)} order={order} decode={style}"
+    what = f"{step} state={state} error={err} fields={sorted(subset)} order={order} decode={style}" + (f" unexpected item(s) {stranger} at the {where}" if stranger != "none" else "")
+    if stranger != "none":
+        R.cls("stranger:" + stranger)
     outcome = None      # ("ok", value) | ("raise", exc)
     ident = RefIdentity(b"AA:BB:CC:DD:EE:FF", h("acc-ltsk", k))
     try:
@@ -103,7 +114,7 @@ def run_cell(case, R):
                 req, exp = g1.send(None)
                 m2 = dict(acc.m2())
                 if step == "setup-M2":
-                    reply = build_reply(step, state, err, subset, order, m2)
+                    reply = build_reply(step, state, err, subset, order, m2, stranger, where)
                     try:
                         g1.send(decode(style, tlv_enc(reply), exp))
                         outcome = ("ok", "yielded")
@@ -120,7 +131,7 @@ def run_cell(case, R):
                     assert acc.m3_ok, "harness: reference rejected honest M3"
                     if step == "setup-M4":
                         m4[T_ENC] = b"\x00" * 40      # optional MFi blob; its content is not interpreted
-                        reply = build_reply(step, state, err, subset, order, m4)
+                        reply = build_reply(step, state, err, subset, order, m4, stranger, where)
                         try:
                             g2.send(decode(style, tlv_enc(reply), exp))
                             outcome = ("ok", "yielded M5")
@@ -130,7 +141,7 @@ def run_cell(case, R):
                         req, exp = g2.send(decode(style, tlv_enc([(T_STATE, b"\x04"), (T_PROOF, acc.srp.M2)]), exp))
                         m6 = dict(acc.handle_m5(wire(req)))
                         assert acc.m5_ok, "harness: reference rejected honest M5"
-                        reply = build_reply(step, state, err, subset, order, m6)
+                        reply = build_reply(step, state, err, subset, order, m6, stranger, where)
                         try:
                             g2.send(decode(style, tlv_enc(reply), exp))
                             outcome = ("ok", "yielded")
@@ -144,7 +155,7 @@ def run_cell(case, R):
                 req, exp = g.send(None)
                 m2 = acc.handle_m1(wire(req))
                 if step == "verify-M2":
-                    reply = build_reply(step, state, err, subset, order, dict(m2))
+                    reply = build_reply(step, state, err, subset, order, dict(m2), stranger, where)
                     try:
                         g.send(decode(style, tlv_enc(reply), exp))
                         outcome = ("ok", "yielded M3")
@@ -154,7 +165,7 @@ def run_cell(case, R):
                     req, exp = g.send(decode(style, tlv_enc(m2), exp))
                     acc.handle_m3(wire(req))
                     assert acc.verified, "harness: reference rejected honest M3"
-                    reply = build_reply(step, state, err, subset, order, {})
+                    reply = build_reply(step, state, err, subset, order, {}, stranger, where)
                     try:
                         g.send(decode(style, tlv_enc(reply), exp))
                         outcome = ("ok", "yielded")
@@ -166,6 +177,8 @@ def run_cell(case, R):
         outcome = ("raise", e)
 
     kind, val = outcome
+    if control and stranger != "none":
+        return          # an error-free reply with an item the step does not define: accepting or refusing it is not this property's business
     if control:
         if kind != "ok":
             R.fail("C04.control-cell-fails", f"{what}: complete error-free reply failed with {type(val).__name__}: {val}", step=step)
@@ -234,6 +247,20 @@ def run_resume_cell(case, R):
         R.fail("C04.wrong-exception-class", f"{what}: raised {type(val).__name__} ({val})", step="verify-M2-resume", state="wrong", decode="ble")
 
 
+def enum_strangers(tier):
+    """Complete replies (all defined fields of the step) with an item the step does not define in front of them / behind State."""
+    i = 0
+    for step, (exp_state, others) in STEPS.items():
+        for state in ("expected", "absent", str(exp_state + 1)):
+            for err in ("absent", "2", "3", "6", "8"):
+                for stranger in [k for k in STRANGERS if k != "none"]:
+                    for where in ("front", "after-state"):
+                        for style in ("ip", "ble"):
+                            i += 1
+                            yield {"step": step, "state": state, "err": err, "subset": list(others), "order": "spec", "decode": style, "k": SEED * 31 + (i % 5),
+                                   "stranger": stranger, "where": where}
+
+
 def enum_resume_table(tier):
     for state in ["absent", "expected"] + [str(s) for s in range(0, 8) if s != 2] + ODD_STATES:
         for err in ERRORS:
@@ -270,6 +297,8 @@ SPEC = Property(
     layers=[
         Layer("protocol-table", run_cell, enumerate=enum_table, exhaustive=True,
               space="5 steps x 13 states x 13 errors x 2^|other fields| x 4 (order, decode) combinations (quick: 2 combinations for setup M4/M6)", min_nontrivial=3000),
+        Layer("unexpected-items", run_cell, enumerate=enum_strangers, exhaustive=True,
+              space="5 steps x 3 states x 5 errors x 4 kinds of undefined item (RetryDelay, vendor, both, separator) x 2 positions x 2 decode styles, all defined fields present"),
         Layer("resume-table", run_resume_cell, enumerate=enum_resume_table, exhaustive=True,
               space="verify M2 of a resumed exchange: 13 states x 13 errors x 2 orders on top of a valid resume reply", min_nontrivial=200),
         *C04_BLE_LAYERS,
